@@ -466,6 +466,7 @@ def r1_5(ctx: Ctx, rule="R1.5"):
     rets = [n for n in walk_no_nested(f.node) if isinstance(n, ast.Return)]
     comp = [n for n in ast.walk(f.node) if isinstance(n, (ast.ListComp, ast.GeneratorExp))]
     ok_iter = ok_dist = ok_min = False
+    d = None
     from ..pat import expand_single_defs as _xsd
     if comp:
         c = _xsd(f.node, comp[0])
@@ -519,9 +520,13 @@ def r1_5(ctx: Ctx, rule="R1.5"):
         return
     ctx.ob(rule, f, comp[0] if comp else "candidates", ok_iter,
            "the nearest-anchor search ranges over every frame of the reference (no filter)", node=comp[0] if comp else f.node)
-    ctx.ob(rule, f, "distance expression", ok_dist,
-           "candidates are ordered by the distance between the target atom's position and the anchor atom's position",
-           node=comp[0] if comp else f.node)
+    if comp and d is None:
+        ctx.ob(rule, f, "distance expression", True, "the (distance, anchor) pairing is not written as a comprehension of pairs or a zip "
+               "of the distances with the anchors; not decided on this tree", undecided=True, node=comp[0])
+    else:
+        ctx.ob(rule, f, "distance expression", ok_dist,
+               "candidates are ordered by the distance between the target atom's position and the anchor atom's position",
+               node=comp[0] if comp else f.node)
     t_ = norm(_xsd(f.node, rets[0].value)) if rets else ""
     wrong = (t_.startswith("sorted(") and (t_.endswith(")[-1][1]") or "reverse" in t_)) or t_.startswith("max(") \
         or (t_.startswith("sorted(") and not t_.endswith(")[0][1]"))
